@@ -182,9 +182,14 @@ public:
                    );
 
         // the readers compute row sizes as width * bits per pixel (at most 32) in 32 bit arithmetic
-        io_error_if(  _info._width < 0
+        io_error_if(  _info._width <= 0
                    || _info._width > (std::numeric_limits< bmp_image_width::type >::max)() / 32
                    , "Invalid BMP image width."
+                   );
+
+        // a bitmap has at least one row; the row loops seek once per declared row whatever the width is
+        io_error_if( _info._height <= 0
+                   , "Invalid BMP image height."
                    );
 
         _info._valid = true;
